@@ -408,8 +408,10 @@ func ownerWriteCmds(pls []lorawan.Payload, r *sim.Rand) {
 			continue
 		}
 		if pp, ok := mc.Payload.(*lorawan.ProprietaryMACCommandPayload); ok {
-			for i := range pp.Bytes {
-				pp.Bytes[i] ^= 0xff
+			if pp != nil {
+				for i := range pp.Bytes {
+					pp.Bytes[i] ^= 0xff
+				}
 			}
 			continue
 		}
